@@ -27,7 +27,8 @@ for p in props:
         na.append({"property_id": pid, "reason": (r or {}).get("reason") if r and not r.get("claimed") and r.get("reason") else "check still under construction / not yet validated on the unchanged tree; no claim is made yet"})
 m = {
     "version": 1,
-    "setup_cmd": "cd lean && lake build hwmodel " + " ".join(f"Haiway.Props.{c['property_id']}" for c in checks),
+    "setup_cmd": "cd lean && lake build hwmodel " + " ".join(f"Haiway.Props.{c['property_id']}" for c in checks)
+                 + " Haiway.Bridge.Contexts Haiway.Bridge.Queue Haiway.Bridge.ScopeState Haiway.Bridge.Missing",
     "hooks": {
         "guard": "HAIWAY_VERIF",
         "enable": "no source hooks: checks import /repo/src in-process with HAIWAY_VERIF=1 set (unused by the library)",
@@ -38,7 +39,7 @@ m = {
     "engines": [{
         "name": "lean4-proof+correspondence", "path": "lean/ harness/ check",
         "serves_properties": [c["property_id"] for c in checks],
-        "kind_free_text": "Lean 4 theorems (kernel-checked, axioms audited) about hand-written executable models; compiled model driver hwmodel compared with the real haiway package on generated cases; property monitors on the implementation's observations",
+        "kind_free_text": "Lean 4 theorems (kernel-checked, axioms audited) about hand-written executable models; compiled model driver hwmodel compared with the real haiway package on generated cases; property monitors on the implementation's observations; for the scope enter/exit procedures, the three context managers, ScopeState, AsyncQueue and Missing the methods are translated from the current source into Lean terms on every run and refinement obligations are re-proved",
     }],
     "checks": checks,
     "not_applicable": na,
